@@ -145,7 +145,10 @@ def run_case(res: Result, spec, idx, contract_ok):
         def on_step(run, st):
             if st.phase == "start" and isinstance(st.extra, Exception):
                 res.count("refused." + type(st.extra).__name__)
+                state["refused"] = True   # the library did not agree to start this machine
                 return True
+            if st.phase == "send" and isinstance(st.extra, Exception) and engine != "pure":
+                res.count("send-raised." + type(st.extra).__name__)
             if engine == "pure":
                 if isinstance(st.extra, Exception):
                     res.count("pure.raised." + type(st.extra).__name__)
@@ -169,10 +172,24 @@ def run_case(res: Result, spec, idx, contract_ok):
 
         _contract["illegal"].clear()
         c0 = _contract["evals"]
+        # sub-workloads: (a) some marker actions await (async engine), so other tasks - the
+        # engine's own consumer included - get to run in the middle of a macrostep;
+        # (b) one or two action implementations are missing, so a transition aborts midway and
+        # must be rolled back to a legal configuration (the statement covers every machine the
+        # library agrees to start)
+        names = gen.action_names(case.plan)
+        frng = rng_for(spec["seed"], ID, spec["chunk"], idx, "faults")
+        kw = {}
+        if idx % 4 == 1 and names:
+            kw["drop"] = frng.sample(names, min(len(names), frng.randint(1, 2)))
+            res.count("runs.with-missing-action." + engine)
+        if engine == "async" and idx % 3 != 0:
+            kw["yields"] = {n: frng.randint(1, 2) for n in names if frng.random() < 0.3}
+            res.count("runs.with-awaiting-actions")
         if engine == "sync":
-            run = drive.run_sync(case, nev, erng, on_step, setup=setup)
+            run = drive.run_sync(case, nev, erng, on_step, setup=setup, machine_kw=kw)
         elif engine == "async":
-            run = drive.run_async(case, nev, erng, on_step, setup=setup)
+            run = drive.run_async(case, nev, erng, on_step, setup=setup, machine_kw=kw)
             if run.get("undrained"):
                 res.count("async.undrained", run["undrained"])
         else:
@@ -180,7 +197,7 @@ def run_case(res: Result, spec, idx, contract_ok):
         _trees.clear()
         if engine == "sync" and contract_ok:
             res.count("obs.icontract.invariant", _contract["evals"] - c0)
-            if _contract["illegal"] and state["bad"] is None:
+            if _contract["illegal"] and state["bad"] is None and not state.get("refused"):
                 state["bad"] = ("icontract.invariant", _contract["illegal"][0], "public-return", [])
         res.evaluations += 1
         nontrivial = state["ext"] >= 1 and len(seen_cfgs) >= 2 if engine != "pure" \
